@@ -181,6 +181,18 @@ func c04Hash(v *verifRun, s, typ string, circ, ds bool) (h string, ok bool) {
 	return h, true
 }
 
+// c04Accepts reports whether the function accepts the input at all (used only
+// for letters beyond the 15 IUPAC codes, where acceptance is not demanded).
+func c04Accepts(s, typ string, circ, ds bool) (ok bool) {
+	defer func() {
+		if recover() != nil {
+			ok = true // let the caller run into the panic under Guard
+		}
+	}()
+	_, err := Hash(s, typ, circ, ds)
+	return err == nil
+}
+
 func c04Uniform(s string) bool {
 	for i := 1; i < len(s); i++ {
 		if s[i] != s[0] {
@@ -357,7 +369,7 @@ func TestVerifC04(t *testing.T) {
 
 	// ---- rotation ----
 	v := newVerifRun("C04", "seqhash.Hash/post/rotation-invariant",
-		dom(", all 17 letters accepted for DNA/RNA to length "+c04Itoa(lAcc)+" and the 26 protein letters to length "+c04Itoa(lProt)+" (proteins single-stranded only)")+
+		dom(", all strings over the 17 letters ATUGCYRSWKMBDHVNZ that the function accepts as DNA/RNA to length "+c04Itoa(lAcc)+" and the 26 protein letters to length "+c04Itoa(lProt)+" (proteins single-stranded only)")+
 			"; every rotation offset 1..n-1 in the exhaustive part, offsets 1, n-1 and two random ones in the random part; circular, single- and double-stranded; one case = one (sequence, type, strandedness) with all its offsets; non-trivial = length >= 2 and not a single repeated letter")
 	for _, ds := range []bool{false, true} {
 		ds := ds
@@ -366,8 +378,11 @@ func TestVerifC04(t *testing.T) {
 		c04All(iupac15, l15, func(s string) { c04Rotation(v, s, "DNA", ds, nil) })
 		c04All(iupac16, l15, func(s string) { c04Rotation(v, s, "RNA", ds, nil) })
 		c04All(accepted17, lAcc, func(s string) {
-			c04Rotation(v, s, "DNA", ds, nil)
-			c04Rotation(v, s, "RNA", ds, nil)
+			for _, typ := range []string{"DNA", "RNA"} {
+				if c04Accepts(s, typ, true, ds) { // beyond the 15 codes: only what the function accepts
+					c04Rotation(v, s, typ, ds, nil)
+				}
+			}
 		})
 		c04Par(len(rands), func(i int) {
 			c04Rotation(v, rands[i].s, "DNA", ds, rands[i].offs)
@@ -405,15 +420,18 @@ func TestVerifC04(t *testing.T) {
 
 	// ---- case ----
 	v = newVerifRun("C04", "seqhash.Hash/post/case-invariant",
-		dom(", all 17 letters accepted for DNA/RNA to length "+c04Itoa(lAcc)+" and the 26 protein letters to length "+c04Itoa(lProt))+
+		dom(", all strings over the 17 letters ATUGCYRSWKMBDHVNZ that the function accepts as DNA/RNA to length "+c04Itoa(lAcc)+" and the 26 protein letters to length "+c04Itoa(lProt))+
 			"; all four topology/strandedness combinations (proteins single-stranded); every one of the 2^n case patterns for ACGT/ACGU to length "+c04Itoa(lCaseAll)+" and for the other short alphabets, otherwise all-lower, alternating and one further pattern; non-trivial = the sequence has a letter")
 	c04All("ACGT", l4, func(s string) { c04Case(v, s, "DNA", len(s) <= lCaseAll, uint64(len(s))*0x9E3779B97F4A7C15) })
 	c04All("ACGU", l4, func(s string) { c04Case(v, s, "RNA", len(s) <= lCaseAll, uint64(len(s))*0x9E3779B97F4A7C15) })
 	c04All(iupac15, l15, func(s string) { c04Case(v, s, "DNA", true, 0) })
 	c04All(iupac16, l15, func(s string) { c04Case(v, s, "RNA", true, 0) })
 	c04All(accepted17, lAcc, func(s string) {
-		c04Case(v, s, "DNA", true, 0)
-		c04Case(v, s, "RNA", true, 0)
+		for _, typ := range []string{"DNA", "RNA"} {
+			if c04Accepts(s, typ, false, false) { // beyond the 15 codes: only what the function accepts
+				c04Case(v, s, typ, true, 0)
+			}
+		}
 	})
 	c04All(protein26, lProt, func(s string) { c04Case(v, s, "PROTEIN", true, 0) })
 	seeds := make([]uint64, len(rands))
